@@ -119,3 +119,10 @@ CHECKS["C10"] = dict(
     text="For every style x form and every body in the bound (as C08), CrossHair confirms that applying the real find_and_replace_header (with the real create_header and reader) twice with identical arguments gives the same text as applying it once - i.e. the tool finds the header it wrote and does not stack a second one.",
     note="--no-replace is excluded (stacking is that option's documented meaning). Known finding: Julia with --multi-line never finds its own '#=' header (single-line '#' detection is tried first) and stacks headers.",
 )
+
+CHECKS["C11"] = dict(
+    engine="XH",
+    technique="symbolic execution (CrossHair + z3) of the real annotate command body and add_header_to_file over a file-system model with header construction as a symbolic fault point",
+    text="For two paths with symbolic type (recognised / unrecognised / uncommentable / binary), symbolic pre-existing .license sibling, symbolic outcome of header construction per path (ok, CommentCreateError, MissingReuseInfoError), --skip-existing, --no-replace, each style option and line-handling option, CrossHair confirms over all paths that a failing path and its .license sibling are unchanged (none created), every other path is processed, the exit status is 1 iff some path failed, and a usage error leaves the model untouched.",
+    note="Stubs: Path/open model, is_binary by extension, header builder replaced by the fault point, click's option parser. Known finding (replayed through the real CLI on a temporary project each run): the .license sibling is touch()ed before the header is built and is left behind when building fails.",
+)
